@@ -57,7 +57,9 @@ static void run_vmp(const Vals& v, Ctx& c, bool bigshape) {
   }
   const uint64_t hmat = hash_bytes(MAT.p, MAT.len), ha = hash_bytes(A.p, A.len);
   // ---- prepare
-  Buf PM = ar.alloc(bytes_of_vmp_pmat(mod, nrows, ncols), OVER, 0, prefill, v[12]);
+  // the prepared matrix is an opaque caller buffer of bytes_of_vmp_pmat bytes: 64-byte aligned (guard page right behind it) or, one case
+  // in two, at an offset of 8..56 bytes from a 64-byte boundary (the documented minimum alignment is 8)
+  Buf PM = ar.alloc(bytes_of_vmp_pmat(mod, nrows, ncols), ((v[12] >> 11) & 1) ? MID : OVER, 8 * (1 + (v[12] >> 12) % 7), prefill, v[12]);
   {
     Buf T = ar.alloc(vmp_prepare_contiguous_tmp_bytes(mod, nrows, ncols), OVER, 0, prefill + 1, v[12]);
     vmp_prepare_contiguous(mod, (VMP_PMAT*)PM.p, mat, nrows, ncols, T.p);
